@@ -33,7 +33,7 @@ WINDOWS = {
 }
 TIERS = {
     # cost: enum bound (items after the prefix); ne: elements per stream; rt: (alphabet size, max length) round-trip sets
-    "quick": dict(cost={"w8": 9, "w16": 8}, ne=2, rt={"w8": [(2, 11), (3, 7)], "w16": [(2, 12), (3, 8)]},
+    "quick": dict(cost={"w8": 8, "w16": 8}, ne=2, rt={"w8": [(2, 11), (3, 7)], "w16": [(2, 12), (3, 8)]},
                   mut={"w8": [(2, 9)], "w16": [(2, 9), (3, 6)]}, unbounded=True, prod_parse_max=3000, prod_scale=1),
     "thorough": dict(cost={"w8": 11, "w16": 10}, ne=3, rt={"w8": [(2, 15), (3, 10)], "w16": [(2, 17), (3, 10)]},
                      mut={"w8": [(2, 12), (3, 7)], "w16": [(2, 13), (3, 8)]}, unbounded=True, prod_parse_max=12000, prod_scale=3),
@@ -284,10 +284,9 @@ def model_and_replay(cx, win, kind, cfgs, env, exe, exe_as, mutate=None):
             lab = labels.get(key)
             fk = KEY_BAD.get(lab) if lab else None
             msgs = "; ".join(bad_ids[i])[:500]
-            if fk is None:
-                fk = KEY_WHY.get(awhy)
-            if fk is None:
-                fk = san_key(msgs) if "sanitizer/crash" in msgs else "reduce:model_mismatch:" + ("accept_expected" if lines[i].split()[2] == "1" else "reject_expected")
+            if fk is None:   # not a stream on which the machine as written misbehaves: never a known finding
+                fk = "reduce:model_mismatch:" + ("sanitizer_report" if "sanitizer/crash" in msgs else
+                                                 "accept_expected" if lines[i].split()[2] == "1" else "reject_expected")
             return fk, lab, msgs
         # a known finding is not reported, so it is not re-run either
         ids = [i for i in sorted(bad_ids) if not ck.findings.is_known(PROP, fkey(i)[0])]
@@ -446,7 +445,7 @@ def roundtrip(cx, win, exe, inputs, cfg, parse_max=None):
     return res
 
 
-def corrupt(cx, win, exe, inputs, cfg, strides, parse_max=None):
+def corrupt(cx, win, exe, inputs, cfg, strides, parse_max=None, aw_cfg=None):
     ck = cx.ck
     lines = [m_line(i, strides[i], b) for i, (_, b) in enumerate(inputs)]
     res = run_harness(exe, lines, chunk=16 if win != "prod" else 1, par=vlib.NCPU)
@@ -459,45 +458,53 @@ def corrupt(cx, win, exe, inputs, cfg, strides, parse_max=None):
     for i, msg in res["CRASH"]:
         cx.violation(san_key(msg), "harness died on corruption case of input %r (%s): %s" % (inputs[i][0], win, msg[:300]),
                      {"kind": "M", "window": win, "input": list(inputs[i][1][:100000]), "input_len": len(inputs[i][1]), "stride": strides[i]})
-    per_key = {}
-    for i, kind, pos, val, msg in res["MCRASH"]:
-        k = san_key(msg)
-        per_key[k] = per_key.get(k, 0) + 1
-        if per_key[k] <= 3 or not ck.findings.is_known(PROP, k):
-            if per_key[k] <= 40:
-                cx.violation(k, "%s: %s at %d (value %d) of the encoding of input %r (%d bytes): %s"
-                             % (win, kind, pos, val, inputs[i][0], len(inputs[i][1]), msg[:260]),
-                             {"kind": "M1", "window": win, "input": list(inputs[i][1][:100000]), "input_len": len(inputs[i][1]),
-                              "mut": [kind, pos, val]})
-    ck.add("corruptions_with_sanitizer_report_%s" % win, len(res["MCRASH"]))
-    ck.add("inputs_abandoned_after_16_sanitizer_reports", len(res["MCAPPED"]))
-    # accepted corruptions: benign only if TLC says "valid stream with the original meaning"
-    cases, meta = [], []
-    for i, kind, pos, val, eq in res["ACC"]:
+    # every mutated stream that died or was accepted is classified by TLC: abstract verdict (valid alias?) and, for the
+    # small windows, the state in which the machine as written stops (the known defect classes)
+    evs = [(i, kind, pos, val, None, msg) for i, kind, pos, val, msg in res["MCRASH"]] + [(i, kind, pos, val, eq, "") for i, kind, pos, val, eq in res["ACC"]]
+    cases, meta, per_key = [], [], {}
+    lim = None if parse_max is None else max(parse_max, 60000)
+    for i, kind, pos, val, eq, msg in evs:
         enc = res["MUT"][i][3] if i in res["MUT"] else res["MUTENC"].get(i)
-        if enc is None:
-            continue
-        m = mutated(enc, kind, pos, val)
-        if parse_max is not None and len(m) > max(parse_max, 60000):
-            cx.violation("reduce:accepted_corruption_unarbitrated", "%s: %s at %d of encoding of %r accepted (output %s original); too long for the TLC parse"
-                         % (win, kind, pos, inputs[i][0], "=" if eq else "#"), {"kind": "M1", "window": win, "input": list(inputs[i][1][:100000]),
-                                                                               "input_len": len(inputs[i][1]), "mut": [kind, pos, val]})
-            continue
-        cases.append({"id": len(cases), "src": list(m), "inp": list(inputs[i][1])})
-        meta.append((i, kind, pos, val, eq))
-    r, got = tlc_file(cfg, cases, "%s arbitration of %d accepted corruptions" % (cfg, len(cases)))
+        m = mutated(enc, kind, pos, val) if enc is not None else None
+        if m is None or (lim is not None and len(m) > lim):
+            cases.append(None)
+        else:
+            cases.append({"id": len(cases), "src": list(m), "inp": list(inputs[i][1])})
+        meta.append((i, kind, pos, val, eq, msg))
+    real = [c for c in cases if c is not None]
+    r, got = tlc_file(cfg, real, "%s classification of %d dying/accepted corruptions" % (cfg, len(real)))
     if r:
         cx.tlc(r)
+    got_aw = {}
+    if aw_cfg and real:
+        r, got_aw = tlc_file(aw_cfg, real, "%s classification (machine as written)" % aw_cfg)
+        cx.tlc(r)
     benign = 0
-    for c, (i, kind, pos, val, eq) in zip(cases, meta):
-        g = got[c["id"]]
-        if eq and g["abs"] == "hash" and g["dataeq"] and g["trl"] == c["src"][-8:]:
+    for c, (i, kind, pos, val, eq, msg) in zip(cases, meta):
+        g = got[c["id"]] if c is not None else None
+        ga = got_aw.get(c["id"]) if c is not None else None
+        if g is not None and eq and g["abs"] == "hash" and g["dataeq"] and g["trl"] == c["src"][-8:]:
             benign += 1
             continue
-        cx.violation(KEY_WHY.get(g["why"], "reduce:accepted_damaged_stream:" + (g["why"] or "meaning")),
-                     "%s: decoder accepts the encoding of %r with %s at %d (value %d); TLC: valid=%s reason=%s; output %s input"
-                     % (win, inputs[i][0], kind, pos, val, g["abs"], g["why"], "=" if eq else "#"),
-                     {"kind": "M1", "window": win, "input": c["inp"], "input_len": len(c["inp"]), "mut": [kind, pos, val]})
+        if ga is not None:
+            lab = ga["bad"] or ("uint5" if ga["asrt"] else "")
+            k = KEY_BAD.get(lab, "reduce:unexplained:" + ("sanitizer_report" if eq is None else "accepted_damaged_stream"))
+        elif eq is None:
+            k = san_key(msg)
+        elif g is not None:
+            k = KEY_WHY.get(g["why"], "reduce:accepted_damaged_stream:" + (g["why"] or "meaning"))
+        else:
+            k = "reduce:accepted_corruption_unarbitrated"
+        per_key[k] = per_key.get(k, 0) + 1
+        if per_key[k] > 40:
+            continue
+        what = ("sanitizer report: " + msg[:260]) if eq is None else ("ACCEPTED, output %s input" % ("=" if eq else "#"))
+        cx.violation(k, "%s: %s at %d (value %d) of the encoding of input %r (%d bytes): %s; TLC: %s"
+                     % (win, kind, pos, val, inputs[i][0], len(inputs[i][1]), what,
+                        "valid=%s reason=%s as-written machine: %s" % (g["abs"], g["why"], (ga or {}).get("bad", "n/a")) if g else "not parsed"),
+                     {"kind": "M1", "window": win, "input": list(inputs[i][1][:100000]), "input_len": len(inputs[i][1]), "mut": [kind, pos, val]})
+    ck.add("corruptions_with_sanitizer_report_%s" % win, len(res["MCRASH"]))
+    ck.add("inputs_abandoned_after_16_sanitizer_reports", len(res["MCAPPED"]))
     ck.add("corruptions_accepted_but_valid_alias_%s" % win, benign)
     vlib.log("  %s corruption: %d inputs, %d mutated streams decoded, %d accepted (%d are valid aliases per TLC), %d sanitizer reports"
              % (win, len(inputs), nmut, nacc, benign, len(res["MCRASH"])))
@@ -539,7 +546,7 @@ def run(tier, mutate=None, only=None):
                 for k, n in T["mut"][win]:
                     mins += [("s%d:%s" % (k, "".join(chr(c if c else 48) for c in s)), bytes(s)) for s in all_strings(k, n) if len(s) >= n - 3]
                 mins += ins[-(W["buf"] * 4 + 2 + 40 + W["buf"] + 2):]
-                corrupt(cx, win, exe[win], mins, W["file"][0], [1] * len(mins))
+                corrupt(cx, win, exe[win], mins, W["file"][0], [1] * len(mins), aw_cfg=W["file"][1])
     else:
         # the model is still checked; only its replay needs the small window
         for win in ("w8", "w16"):
